@@ -181,6 +181,7 @@ def do_fit(S, op, i, base_seed, check):
             held["solver_" + attr] = v
     before = {k: _hash_obj(v) for k, v in held.items()}
     solver_before = _solver_params(model)
+    est_before = _est_params(model) if cls not in ("GeneralizedLinearEstimator", "IterativeReweightedL1") else None
     seams = Seams(op.get("faults"))
     exc = None
     warned_nonconv = False
@@ -227,6 +228,7 @@ def do_fit(S, op, i, base_seed, check):
         if before[k] != after[k]:
             S.add(["C18"], "input_modified", (cls, "input_modified", k), dict(which=k), dict(feat0, which=k), i)
     _judge_solver_params(S, model, solver_before, cls, feat0, i)
+    _judge_est_params(S, model, est_before, cls, feat0, i)
     if exc is not None and exc.get("interrupted"):
         # the fit was killed part-way (F-INTERRUPT): nothing was returned, only the estimator
         # object, the user's arrays and process-global state survive.  Inputs were checked
@@ -491,6 +493,38 @@ def op_wants_optimum(S, i):
     return S.plan["ops"][i].get("optimum", True)
 
 
+def _est_params(model):
+    """The estimator's own constructor arguments (get_params, scalars by value, arrays by hash)."""
+    try:
+        gp = model.get_params(deep=False)
+    except Exception:
+        return None
+    out = {}
+    for k, v in gp.items():
+        if isinstance(v, (bool, np.bool_, int, float, np.integer, np.floating)):
+            out[k] = repr(float(v))
+        elif isinstance(v, (str, type(None))):
+            out[k] = repr(v)
+        elif isinstance(v, np.ndarray):
+            out[k] = _hash_obj(v)
+        elif isinstance(v, (list, tuple)):
+            out[k] = repr(v)
+    return out
+
+
+def _judge_est_params(S, model, before, cls, feat0, i):
+    """fit / path may not rewrite the constructor arguments of the estimator they are called on
+    (only set_params does): a later fit would then depend on what was called before."""
+    if before is None:
+        return
+    after = _est_params(model) or {}
+    changed = sorted(k for k in set(before) | set(after) if before.get(k) != after.get(k))
+    if changed:
+        S.add(["C18"], "estimator_params_modified", (cls, "estimator_params_modified", changed[0]),
+              dict(changed={k: [before.get(k), after.get(k)] for k in changed}),
+              dict(feat0, which=changed[0]), i)
+
+
 def _solver_params(model):
     """Scalar hyper-parameters of a user-held solver object (constructor arguments)."""
     solver = getattr(model, "solver", None)
@@ -597,6 +631,7 @@ def do_path(S, op, i, base_seed, check):
     feat0 = dict(cls=cls, container=container, kind=ds["kind"], path=True, engine=S.plan.get("engine"),
                  fit_intercept=bool(S.args[mid].get("fit_intercept", False)))
     wlist = []
+    est_before = _est_params(model)
     try:
         with warnings.catch_warnings(record=True) as wlist:
             warnings.simplefilter("always")
@@ -604,7 +639,10 @@ def do_path(S, op, i, base_seed, check):
                 if cls == "SqrtLasso":
                     out = model.path(Xc, yc, alphas=np.array(op["alphas"]))
                 else:
-                    out = model.path(Xc, yc, np.array(op["alphas"]), return_n_iter=True)
+                    # (path(..., **params): extra keyword arguments are accepted by the estimators'
+                    # path methods; whatever they do with them, the estimator keeps its own)
+                    out = model.path(Xc, yc, np.array(op["alphas"]), return_n_iter=True,
+                                     **(op.get("kwargs") or {}))
     except Exception as e:
         exc = classify_exception(e)
         if exc.get("harness"):
@@ -624,6 +662,9 @@ def do_path(S, op, i, base_seed, check):
     after = (_hash_obj(Xc), _hash_obj(yc))
     if before != after:
         S.add(["C18"], "input_modified", (cls, "input_modified", "path"), {}, dict(feat0), i)
+    _judge_est_params(S, model, est_before, cls, feat0, i)
+    if op.get("kwargs"):
+        return       # a sweep under other settings than the estimator's own is not judged
     alphas_out = np.array(out[0], dtype=float)
     coefs = np.array(out[1], dtype=float)
     S.log.update(coefs.tobytes())
